@@ -159,7 +159,9 @@ def history_program(rng, length, lanes=ALL_LANES, nkeys=6, ndata=5, removal_weig
             o = rand_opts(rng, full_opts)
             o["sri"] = [{"a": a, "d": d}]
             if rng.random() < 0.5:
-                o["size"] = rng.randrange(0, 10 ** 6)
+                # (raw inserts store any declared size verbatim: the whole 64-bit range)
+                o["size"] = rng.choice([rng.randrange(0, 10 ** 6), 0, 2 ** 31, 2 ** 32 + 1, 2 ** 53 + 1,
+                                        2 ** 63 - 1, 2 ** 64 - 2, rng.randrange(2 ** 53, 2 ** 64)])
             prog["steps"].append({"op": "index_insert", "lane": lane, "key": k, "opts": o})
         elif r < 0.50 + removal_weight:
             rr = rng.random()
@@ -182,7 +184,7 @@ def history_program(rng, length, lanes=ALL_LANES, nkeys=6, ndata=5, removal_weig
             d = rng.choice(datas)
             prog["steps"].append({"op": "env_bucket", "key": k, "mode": "plant",
                                   "entry": {"key": fk, "sri": [{"a": "sha256", "d": d}],
-                                            "time": rng.randrange(10 ** 12), "size": rng.randrange(100),
+                                            "time": rng.randrange(10 ** 12), "size": rng.choice([rng.randrange(100), 2 ** 53 + 1]),
                                             "metadata": None, "raw_metadata": None}})
         else:
             d = rng.choice(datas)
@@ -263,7 +265,13 @@ def write_steps(rng, prog, lane, d, n, algo, key=None, how="oneshot", chunks=Non
     if flushy and rng.random() < 0.3:
         st.append({"op": "w_flush", "lane": lane, "h": alias})
     for (lo, hi) in (chunks or [(0, n)]):
-        st.append({"op": "w_write", "lane": lane, "h": alias, "data": d, "from": lo, "to": hi, "all": all_})
+        w = {"op": "w_write", "lane": lane, "h": alias, "data": d, "from": lo, "to": hi, "all": all_}
+        if hi - lo <= 4096 and rng.random() < 0.12:
+            w["vectored"] = rng.choice([1, 2, 3])       # Write::write_vectored instead of write
+        elif hi - lo > 0 and rng.random() < 0.15:
+            # io::copy into the writer from a source that trickles (socket-like short reads)
+            w["copy_step"] = rng.choice([1, 100, 1000, 5000, 8192, 9000])
+        st.append(w)
         if flushy and rng.random() < 0.5:
             st.append({"op": "w_flush", "lane": lane, "h": alias})
     if rng.random() < 0.2:
@@ -467,6 +475,8 @@ def retrieval_steps(rng, prog, lanes, key, algo, d, xcount, which=None, dest_exi
                 # already holds bytes (the entry's original bytes, or unrelated ones)
                 st.append({"op": "r_read", "lane": lane, "h": r, "n": 0, "to_end": True, "orig": d,
                            "prefill": rng.choice([None, "same", "same", "00" * 16, "abcdef"])})
+            elif how < 0.4:
+                st.append({"op": "r_read", "lane": lane, "h": r, "n": 0, "copy": True})     # io::copy
             elif how < 0.75:
                 st.append({"op": "r_read", "lane": lane, "h": r, "n": bs, "all": True})
             else:
@@ -607,6 +617,26 @@ def algo_program(rng, ncases, lanes=ALL_LANES):
         if r < 0.15 and seen:
             aa, dd = rng.choice(sorted(seen))
             prog["steps"].append({"op": "remove_hash", "lane": rng.choice(lanes), "sri": [{"a": aa, "d": dd}]})
+        elif r < 0.35 and seen:
+            # something else sits at the address (a damaged copy of the same or another length):
+            # storing the bytes again must leave the address holding exactly them
+            aa, dd = rng.choice(sorted(seen))
+            nn = len(bytes.fromhex(prog["blobs"][dd]["hex"])) if dd != "empty" else 0
+            dm = rng.choice(["flip", "cut", "extend", "overwrite"])
+            st_ = {"op": "env_content", "algo": aa, "blob": dd, "mode": dm}
+            if dm == "flip":
+                st_["bit"] = rng.randrange(max(1, nn * 8))
+            elif dm == "cut":
+                st_["len"] = rng.randrange(0, max(1, nn))
+            elif dm == "extend":
+                st_["extra"] = "00ff"
+            else:
+                st_.update({"off": rng.randrange(max(1, nn)), "bytes": "a5"})
+            prog["steps"].append(st_)
+            kk = rng.choice(keys + [None])
+            prog["steps"] += write_steps(rng, prog, rng.choice(lanes), dd, nn, aa, kk,
+                                         rng.choice(["oneshot", "opts"]), rng.choice(chunkings(rng, nn)),
+                                         {}, alias="h%d" % c)
         observe_all(prog, rng, lanes, keys, sorted(seen), with_list=(rng.random() < 0.3))
     return prog
 
@@ -670,6 +700,14 @@ def link_program(rng, ncases, lanes=ALL_LANES):
             prog["steps"].append(s)
             for _ in range(rng.randrange(0, 3)):
                 prog["steps"].append({"op": "r_read", "lane": lane, "h": l, "n": rng.choice([1, 8, 9, 100, 70000])})
+            rd = rng.random()
+            if rd < 0.25:
+                # the caller reads the rest of the target itself through the provided helpers
+                # (read_to_end re-polls with a partly filled buffer, io::copy with its own)
+                prog["steps"].append({"op": "r_read", "lane": lane, "h": l, "n": 0, "to_end": True,
+                                      "prefill": rng.choice([None, None, "00" * 40])})
+            elif rd < 0.35:
+                prog["steps"].append({"op": "r_read", "lane": lane, "h": l, "n": 0, "copy": True})
             prog["steps"].append({"op": "l_commit", "lane": lane, "h": l})
         if rel:
             prog["steps"].append({"op": "chdir", "lane": lane, "to": "/"})
@@ -860,7 +898,7 @@ def refwrite_program(rng, nrec, lanes=ALL_LANES):
         raw = None if rng.random() < 0.6 else [rng.randrange(256) for _ in range(rng.randrange(0, 20))]
         prog["steps"].append({"op": "env_bucket", "key": k, "mode": "plant",
                               "entry": {"key": k, "sri": None if tomb else [{"a": a, "d": d}],
-                                        "time": rand_time(rng), "size": rng.randrange(0, 2 ** 31 - 1),
+                                        "time": rand_time(rng), "size": rng.choice([rng.randrange(0, 2 ** 31 - 1), 2 ** 53 + 3, 2 ** 64 - 2]),
                                         "metadata": meta, "raw_metadata": raw}})
         if rng.random() < 0.5:
             observe_all(prog, rng, lanes, keys, sorted(addrs), read=True)
